@@ -1,0 +1,74 @@
+//go:build verif
+
+package rux
+
+import "sync/atomic"
+
+// This file is only compiled with the build tag "verif". It exposes the abstract state of the
+// route cache to an external conformance harness and emits one event per cache operation at its
+// linearization point. It adds no behaviour: without an installed tracer every hook returns at once.
+
+// VerifCacheEvent describes one cache operation, taken while the cache lock is still held,
+// after the operation changed the cache.
+type VerifCacheEvent struct {
+	Seq  uint64   // global sequence number, assigned under the cache lock
+	Op   string   // "set" | "get" | "del"
+	Key  string   // the key argument
+	Keys []string // cache keys after the operation, most recently used first
+	Cap  int      // configured capacity
+}
+
+var (
+	verifCacheSeq    uint64
+	verifCacheTracer atomic.Value // of type func(c any, ev VerifCacheEvent)
+)
+
+// VerifSetCacheTracer installs (or with nil: removes) the cache tracer.
+func VerifSetCacheTracer(fn func(c any, ev VerifCacheEvent)) {
+	if fn == nil {
+		fn = func(any, VerifCacheEvent) {}
+	}
+	verifCacheTracer.Store(fn)
+}
+
+func verifCacheOp(c *cachedRoutes, op, key string) {
+	fn, _ := verifCacheTracer.Load().(func(c any, ev VerifCacheEvent))
+	if fn == nil {
+		return
+	}
+
+	ev := VerifCacheEvent{Seq: atomic.AddUint64(&verifCacheSeq, 1), Op: op, Key: key, Cap: c.size}
+	ev.Keys = c.verifKeysLocked()
+	fn(c, ev)
+}
+
+func (c *cachedRoutes) verifKeysLocked() []string {
+	keys := make([]string, 0, c.list.Len())
+	for e := c.list.Front(); e != nil; e = e.Next() {
+		keys = append(keys, e.Value.(*cacheNode).Key)
+	}
+	return keys
+}
+
+// VerifKeys returns the cache keys, most recently used first.
+func (c *cachedRoutes) VerifKeys() []string {
+	c.lock.RLock()
+	defer c.lock.RUnlock()
+	return c.verifKeysLocked()
+}
+
+// VerifMapKeys returns the number of keys of the hash index (must equal the list length).
+func (c *cachedRoutes) VerifMapLen() int {
+	c.lock.RLock()
+	defer c.lock.RUnlock()
+	return len(c.hashMap)
+}
+
+// VerifCap returns the configured capacity.
+func (c *cachedRoutes) VerifCap() int { return c.size }
+
+// VerifCache returns the route cache of the router (nil if not created).
+func (r *Router) VerifCache() *cachedRoutes { return r.cachedRoutes }
+
+// VerifParams returns the parameters stored in a cached route copy.
+func (r *Route) VerifParams() Params { return r.params }
